@@ -205,8 +205,11 @@ impl<T: RealNumber, M: Matrix<T>> Lasso<T, M> {
         let col_mean = x.mean(0);
         let col_std = x.std(0);
 
+        let (n, _) = x.shape();
         for (i, col_std_i) in col_std.iter().enumerate() {
-            if (*col_std_i - T::zero()).abs() < T::epsilon() {
+            // the computed std of a constant column is rounding noise, not necessarily below epsilon
+            let constant = (1..n).all(|r| x.get(r, i) == x.get(0, i));
+            if constant || col_std_i.is_nan() || (*col_std_i - T::zero()).abs() < T::epsilon() {
                 return Err(Failed::fit(&format!(
                     "Cannot rescale constant column {}",
                     i
